@@ -169,7 +169,9 @@ def run(ctx, res):
                             image_end_var = nm
             if image_end is None:
                 res.ob(False)
-                res.finding("stack|image-end-source", "the stack placement does not use an image end the analysis can trace to the program headers", witness(care))
+                # not a proven deviation: the analysis cannot trace where the image end comes from (e.g. an iterator fold)
+                if not any("image end" in e_ for e_ in res.errors):
+                    res.errors.append("the stack placement uses an image end the analysis cannot trace to a loop over the program headers: not decidable")
                 continue
             size = bv.zext(get(facts, SH, hdr, "addr").bits, 64)
             end = bv.add(bv.add(bv.const(BASE, 64), image_end), size)
